@@ -183,8 +183,27 @@ embedded between ordinary operations; decoder-only token soups. Non-trivial = at
     }
     // ---- state carried from one call to the next: after all the failing decodes above (deep nesting, truncated
     // ---- arrays and dictionaries, soups) on this very thread, ordinary content must still round-trip
+    // the deepest operand nesting that round-trips on a CLEAN thread (probed, not assumed): it must keep round-tripping after
+    // any number of rejected over-deep inputs on this thread (a guard that leaks one level per rejection moves this boundary)
+    let nested = |depth: usize, dict: bool| -> Vec<Operation> {
+        let mut o = Object::Integer(7);
+        for k in 0..depth { o = if dict && k % 2 == 0 { let mut d = lopdf::Dictionary::new(); d.set("A", o); Object::Dictionary(d) } else { Object::Array(vec![o]) }; }
+        vec![Operation::new("BDC", vec![Object::Name(b"P".to_vec()), o])]
+    };
+    let rt = |ops: &[Operation]| -> bool { Content { operations: ops.to_vec() }.encode().ok().and_then(|b| Content::decode(&b).ok()).map(|d| ops_equal(&d.operations, ops)).unwrap_or(false) };
+    let deepest = std::thread::spawn(move || { let mut best = 0usize; for d in 1..400usize { let mut o = Object::Integer(7); for _ in 0..d { o = Object::Array(vec![o]); } let ops = vec![Operation::new("BDC", vec![Object::Name(b"P".to_vec()), o])]; let ok = Content { operations: ops.clone() }.encode().ok().and_then(|b| Content::decode(&b).ok()).map(|dd| dd.operations.len() == 1 && dd.operations[0].operands == ops[0].operands).unwrap_or(false); if ok { best = d; } else { break; } } best }).join().unwrap_or(0);
+    c.extra.insert("deepest_operand_nesting_on_a_clean_thread".into(), json!(deepest));
     for i in 0..c.n(200, 2000) {
         let Some(mut r) = c.case("after_failures", i) else { continue };
+        if i % 10 == 5 && deepest > 0 {
+            // a few rejected over-deep inputs first (arrays, dictionaries, mixed; closed and unclosed), then the deepest legal operand
+            for _ in 0..1 + r.usize(3) { let d = deepest + 1 + r.usize(40); let mut o = vec![]; let open: &[u8] = *r.pick(&[&b"["[..], b"<</A ", b"[<</B["]); for _ in 0..d { o.extend_from_slice(open); } if r.chance(1, 2) { o.extend_from_slice(b"1"); for _ in 0..d { o.extend_from_slice(if open == b"[" { b"]" } else { b">>" }); } o.extend_from_slice(b" Do"); } let _ = dec_reply(&o); c.count("after_failures.over_deep_rejected"); }
+            for dict in [false, true] {
+                let ops = nested(deepest, dict);
+                c.count("after_failures.deepest_legal_operand");
+                if !rt(&ops) { c.oracle_fail("content-rt", &format!("an operand nested {} deep (the deepest that round-trips on a clean thread) no longer round-trips after over-deep inputs were rejected on this thread", deepest), json!({"depth": deepest, "dict": dict})); }
+            }
+        }
         if i % 20 == 0 { for d in [40usize, 129, 300] { let mut o = vec![]; for _ in 0..d { o.extend_from_slice(*r.pick(&[&b"["[..], b"<</A "])); } let _ = dec_reply(&o); } }
         let k = 1 + r.usize(4);
         let ops: Vec<Operation> = (0..k).map(|_| { let m = 1 + r.usize(3); Operation::new(&gen_operator(&mut r), (0..m).map(|_| gen_operand(&mut r)).collect()) }).collect();
